@@ -134,6 +134,12 @@ def run(ck, prog, ctx):
                 continue
             inserts = [(bi, t) for bi, t in db.calls() if t.callee.method == "insert" and "HashMap" in (t.callee.def_args or "")]
             decs = [(bi, t) for bi, t in db.calls() if t.callee.method in ("try_from", "from_bytes") and ("annotations::" in (t.callee.def_args or ""))]
+            # ... or through a private generic helper instantiated with the record type (`length_prefixed_record::<Gene>(bytes, offset)`)
+            for bi, t in db.calls():
+                hb_ = prog.bodies.get(t.callee.res or "")
+                if hb_ is not None and hb_.kind in ("Fn", "AssocFn") and not (hb_.exported or hb_.reachable or hb_.impl_trait) and "annotations::" in (t.callee.def_args or ""):
+                    if any(ht.callee.method in ("try_from", "from_bytes", "try_into") for fb_ in prog.family(hb_) for _, ht in fb_.calls()):
+                        decs.append((bi, t))
             links = [(bi, t) for bi, t in db.calls() if re.search(r"::link_\w+_term$", t.callee.res or "")]
             okk = True
             why = []
